@@ -247,6 +247,8 @@ class DocOpts:
         self.p_repeat_outer = 0.3
         self.p_hetero = 0.5
         self.p_nested_var = 0.25
+        self.anydir = None                # name of a no-op directive legal in every executable location
+        self.p_anydir = 0.15
         self.__dict__.update(kw)
 
 
@@ -370,6 +372,8 @@ class DocGen:
 
     def gen_skipinclude(self, scope):
         dirs = []
+        if self.o.anydir and self.rng.random() < self.o.p_anydir:
+            dirs.append((self.o.anydir, []))
         if self.rng.random() < self.o.p_skipinclude:
             names = self.rng.choice([["skip"], ["include"], ["skip", "include"], ["include", "skip"]])
             for n in names:
@@ -539,7 +543,7 @@ class DocGen:
             self.building.add(name)
             fscope = {"vars": set(), "spreads": set()}
             selset = self.gen_selset(tc, depth + 1, fscope)
-            fr = FragDef(name, tc, selset)
+            fr = FragDef(name, tc, selset, [(self.o.anydir, [])] if self.o.anydir and rng.random() < self.o.p_anydir else None)
             self.building.discard(name)
             self.doc.frags[name] = fr
             self.frag_vars[name] = fscope["vars"]
@@ -584,6 +588,8 @@ class DocGen:
                 selset.insert(rng.randrange(len(selset) + 1), self.gen_introspection())
             name = names[i] if (n_ops > 1 or rng.random() < 0.5) else None
             self.doc.ops.append(Op(kind, name, selset))
+            if o.anydir and rng.random() < o.p_anydir:
+                self.doc.ops[-1].directives = [(o.anydir, [])]
             scopes.append(scope)
         # every fragment must be used: ones only created inside discarded paths cannot exist,
         # since fragments are created only when spread.
